@@ -1,6 +1,6 @@
 (* Entry_geometry.v -- flat-list entry points of the C20 models for the extracted driver. *)
-From Coq Require Import ZArith List Bool.
-From PV Require Import Num Model_density.
+From Coq Require Import ZArith List Bool Ascii String.
+From PV Require Import Num Model_density Model_poles_axes.
 From PV.gen Require Import Gen_geometry.
 Import ListNotations.
 
@@ -49,6 +49,26 @@ Section Entry.
     match poles_all ax As hkl with
     | Err e => Err e
     | Ok ps => Ok (flat_map (fun p => let '(a, b, c) := p in [a; b; c]) ps)
+    end.
+
+  (* the reference-axes string as a list of character codes (ASCII) *)
+  Definition str_of_codes (cs : list Z) : string :=
+    fold_right (fun c s => String (ascii_of_nat (Z.to_nat c)) s) EmptyString cs.
+
+  (* poles with ANY reference-axes string; `pick` = which candidate set.pop() returns *)
+  Definition run_poles_str (n pick : nat) (cs : list Z) (xs : list F) : res (list F) :=
+    let As := chunks9 n xs in
+    let hkl := aolg (skipn (9 * n) xs) in
+    match poles_str (str_of_codes cs) pick As hkl with
+    | Err e => Err e
+    | Ok ps => Ok (flat_map (fun p => let '(a, b, c) := p in [a; b; c]) ps)
+    end.
+
+  (* how the string is read: h v up_1 .. up_k  (or the exception) *)
+  Definition run_axes_read (cs : list Z) (xs : list F) : res (list F) :=
+    match ref_axes_read (str_of_codes cs) with
+    | Err e => Err e
+    | Ok (h, v, ups) => Ok (map (fun i : nat => ofZ (Z.of_nat i)) (h :: v :: ups))
     end.
 
   (* sigma w data(3n) -> X(g*g) Y(g*g) totals(g*g) *)
